@@ -903,6 +903,7 @@ Proof.
   assert (∀ y, y ∈ rest → y ∉ i_unalloc (w_ipam w)) as Hrest by (intros y Hy; apply Hfree; by right).
   destruct (by_ip (w_ipam w) x) as [e|]; [|by apply IH].
   destruct (Keys.is_empty (e_key e)); [|by apply IH].
+  destruct (existsb _ (by_key (w_ipam w) (pod_key p))); [by apply IH|].
   rewrite alloc_specific_not_free by (apply Hfree; by left). cbn [fst]. rewrite set_ipam_self. by apply IH.
 Qed.
 
@@ -913,6 +914,7 @@ Proof.
   intros Hnp. induction ips as [|x rest IH]; intros idx w HI; [done|]. cbn [sync_ips].
   destruct (by_ip (w_ipam w) x) as [e|]; [|by apply IH].
   destruct (Keys.is_empty (e_key e)); [|by apply IH].
+  destruct (existsb _ (by_key (w_ipam w) (pod_key p))); [by apply IH|].
   set (a := {| a_policy := policy_of p; a_node := pd_node p; a_uid := pd_uid p |}).
   pose proof (inv2_alloc_specific (w_ipam w) (pod_key p) x a (bool_decide (f_store fl = Some idx)) HI) as HI1.
   destruct (alloc_specific (w_ipam w) (pod_key p) x a (bool_decide (f_store fl = Some idx))) as [s' ra] eqn:Ea. cbn [fst] in *.
@@ -927,6 +929,7 @@ Proof.
   induction ips as [|x rest IH]; intros idx w; [done|]. cbn [sync_ips].
   destruct (by_ip (w_ipam w) x) as [e|]; [|by apply IH].
   destruct (Keys.is_empty (e_key e)); [|by apply IH].
+  destruct (existsb _ (by_key (w_ipam w) (pod_key p))); [by apply IH|].
   rewrite IH. cbn [set_ipam w_ipam].
   match goal with |- i_pools (alloc_specific ?s ?k ?y ?a ?f).1 = _ => destruct (alloc_specific s k y a f) as [s' ra] eqn:Ea end.
   by apply alloc_specific_spec in Ea as [(_ & _ & _ & _ & Hp)|(_ & ->)].
